@@ -449,7 +449,9 @@ pub fn gen_req(token: u64, rng: &mut Rng, st: &mut GenStats) -> Req {
         id: id_of(token),
         token,
         version,
-        notify: if rng.chance(1, 4) { 1 } else { 0 },
+        // the notify flag is a byte; only the value 1 marks a notification for the dispatcher, every other value is a request that
+        // must be answered — identically on every transport and dispatch path
+        notify: if rng.chance(1, 4) { 1 } else if rng.chance(1, 12) { *rng.pick(&[2u8, 3, 0x80, 255]) } else { 0 },
         qf,
         query,
         bf: built.bf,
